@@ -116,3 +116,106 @@ fn c12_masked_fields_of_odd_width_lie_inside_the_slot() {
     }
     println!("CASES c12_odd_fields {cases}");
 }
+
+fn push_word(code: &mut Vec<u8>, x: U256) {
+    let b = x.to_be_bytes();
+    let z = b.iter().take_while(|v| **v == 0).count();
+    if z == 32 { code.push(0x5f); } else { code.push(0x5f + (32 - z) as u8); code.extend(&b[z..]); }
+}
+
+/// width- and offset-carrying uses whose constant operand is out of the word's range: multipliers that are not (or fold to
+/// something that is not) a power of two below 2^256, SIGNEXTEND sizes, shifts and BYTE indices at and beyond 256
+#[test]
+fn c12_out_of_range_constant_operands_stay_inside_the_slot() {
+    use crate::c08::analyze_layout;
+    let mask64 = (U256::ONE << 64u32) - U256::ONE;
+    let big = [U256::ZERO, U256::ONE, U256::from(2u8), U256::from(3u8), U256::from(31u8), U256::from(32u8), U256::from(33u8), U256::from(64u8), U256::from(255u16), U256::from(256u16), U256::from(257u16), U256::from(512u16),
+        U256::ONE << 32u32, U256::ONE << 64u32, (U256::ONE << 64u32) + U256::ONE, U256::ONE << 255u32, U256::MAX];
+    let mut progs: Vec<(String, Vec<u8>)> = vec![];
+    // (cd(4) & mask64) | (cd(36) & mask64) * C      with C a literal or an expression that folds (2 ** e, 1 << s)
+    let mut mults: Vec<(String, Vec<u8>)> = vec![];
+    for c in big { let mut v = vec![]; push_word(&mut v, c); mults.push((format!("{c:#x}"), v)); }
+    for e in [0u16, 1, 8, 64, 192, 255, 256, 257, 1000] {
+        let mut v = vec![]; push_word(&mut v, U256::from(e)); v.extend([0x60, 0x02, 0x0a]); mults.push((format!("2 ** {e}"), v));
+        let mut v = vec![0x60, 0x01]; push_word(&mut v, U256::from(e)); v.push(0x1b); mults.push((format!("1 << {e}"), v));
+    }
+    for (name, m) in &mults {
+        let mut code = vec![];
+        push_word(&mut code, mask64); code.extend([0x60, 0x04, 0x35, 0x16]);
+        code.extend(m);
+        push_word(&mut code, mask64); code.extend([0x60, 0x24, 0x35, 0x16]);
+        code.push(0x02);
+        code.extend([0x17, 0x60, 0x01, 0x55, 0x00]);
+        progs.push((format!("sstore(1, cd(4)&m64 | (cd(36)&m64) * ({name}))"), code));
+        // the product alone, and the product of a field of the slot itself
+        let mut code = vec![];
+        code.extend(m);
+        push_word(&mut code, mask64); code.extend([0x60, 0x01, 0x54, 0x16]);
+        code.extend([0x02, 0x60, 0x01, 0x55, 0x00]);
+        progs.push((format!("sstore(1, (sload(1)&m64) * ({name}))"), code));
+    }
+    for c in big {
+        for (name, op, swapped) in [("signextend", 0x0bu8, false), ("signextend", 0x0b, true), ("byte", 0x1a, false), ("shl", 0x1b, false), ("shr", 0x1c, false), ("sar", 0x1d, false), ("exp", 0x0a, true), ("div", 0x04, true), ("mod", 0x06, true)] {
+            for src in [vec![0x60u8, 0x00, 0x54], vec![0x60, 0x00, 0x35]] {
+                let mut code = vec![];
+                if swapped { push_word(&mut code, c); code.extend(&src); } else { code.extend(&src); push_word(&mut code, c); }
+                code.extend([op, 0x60, 0x01, 0x55, 0x00]);
+                progs.push((format!("sstore(1, {name}({}{c:#x}{}))", if swapped { "src, " } else { "" }, if swapped { "" } else { ", src" }), code));
+            }
+        }
+    }
+    let n = progs.len();
+    for (what, code) in progs {
+        if let Some(slots) = analyze_layout(&code) {
+            for (idx, off, width) in slots {
+                if off >= 256 || width.map_or(false, |w| off.checked_add(w).map_or(true, |e| e > 256)) {
+                    witness("C12", "layout.entry_inside_slot", format!("{what}: {code:02x?}"), format!("entry slot {idx} offset {off} width {width:?}"), "starts and ends inside the 256-bit slot".into());
+                }
+            }
+        }
+    }
+    println!("CASES c12_out_of_range_operands {n}");
+}
+
+/// nested mask-and-shift: ((src & m1) >> s1) & m2, ((src >> s1) & m1) << s2, masks of masks, stored alone or OR-ed with a second field
+#[test]
+fn c12_nested_masks_and_shifts_stay_inside_the_slot() {
+    use crate::c08::analyze_layout;
+    let m = |pos: u32, len: u32| -> U256 { if len >= 256 { U256::MAX << pos } else { ((U256::ONE << len) - U256::ONE) << pos } };
+    let fields = [(0u32, 8u32), (0, 64), (8, 8), (64, 64), (96, 160), (128, 128), (192, 64), (240, 16), (248, 8), (3, 13), (250, 6)];
+    let shifts = [0u16, 8, 64, 128, 192, 240, 248, 255];
+    let mut progs: Vec<(String, Vec<u8>)> = vec![];
+    for (i, &(p1, l1)) in fields.iter().enumerate() {
+        for (j, &(p2, l2)) in fields.iter().enumerate() {
+            for (k, &s) in shifts.iter().enumerate() {
+                if (i + 2 * j + 3 * k) % 4 != 0 { continue; }
+                for (sname, sop) in [("shr", 0x1cu8), ("shl", 0x1b)] {
+                    for src in [vec![0x60u8, 0x01, 0x54], vec![0x60, 0x00, 0x35]] {
+                        // ((src & m1) sop s) & m2
+                        let mut code = vec![];
+                        push_word(&mut code, m(p2, l2));
+                        push_word(&mut code, m(p1, l1)); code.extend(&src); code.push(0x16);
+                        push_word(&mut code, U256::from(s)); code.push(sop);
+                        code.push(0x16);
+                        let mut alone = code.clone(); alone.extend([0x60, 0x01, 0x55, 0x00]);
+                        progs.push((format!("sstore(1, ((src & [{p1},+{l1})) {sname} {s}) & [{p2},+{l2}))"), alone));
+                        // ... | (cd(64) & low byte)
+                        code.extend([0x60, 0xff, 0x60, 0x40, 0x35, 0x16, 0x17, 0x60, 0x01, 0x55, 0x00]);
+                        progs.push((format!("sstore(1, ((src & [{p1},+{l1})) {sname} {s}) & [{p2},+{l2}) | cd(64)&0xff)"), code));
+                    }
+                }
+            }
+        }
+    }
+    let n = progs.len();
+    for (what, code) in progs {
+        if let Some(slots) = analyze_layout(&code) {
+            for (idx, off, width) in slots {
+                if off >= 256 || width.map_or(false, |w| off.checked_add(w).map_or(true, |e| e > 256)) {
+                    witness("C12", "layout.entry_inside_slot", format!("{what}: {code:02x?}"), format!("entry slot {idx} offset {off} width {width:?}"), "starts and ends inside the 256-bit slot".into());
+                }
+            }
+        }
+    }
+    println!("CASES c12_nested_masks {n}");
+}
